@@ -218,6 +218,9 @@ def match_files(rule_path, input_path, mode="list", search="all", only_addr=Fals
     return ("ok", res)
 
 
+ODDNAME_MOD = 8
+ODD_NAMES = [("rule 100%s done.yaml", "dump%20of%20lib foo.s"), ("r{0}ule#1.yaml", "listing {name} #2.s"), ("r\u00e8gle.yaml", "d\u00e9sassembl\u00e9 (1).s"), ("rule%(x)s.yaml", "a%d.b%s.s"),
+             ("rule;echo.yaml", "list&ing$HOME.s")]
 SPELL_MOD = 4  # one generated rule document in four is written in another YAML spelling (the same document: it loads to the same object)
 NOEOL_MOD = 8  # one listing in eight is written without the final newline / with blank lines after the last instruction
 
@@ -246,7 +249,11 @@ def spelled_rule_text(doc):
 def match(doc, listing_text, mode="list", search="all", only_addr=False, macros=None, want_regex=False):
     """doc: python object (dumped as YAML) or raw YAML text; listing_text: objdump-format text."""
     s = scratch()
-    rp = s.write("rule.yaml", spelled_rule_text(doc))
+    rtext = spelled_rule_text(doc)
+    # file names are the user's business: blanks, a percent sign, braces, a hash, non-ASCII letters (one call in eight, by content)
+    odd = ODDNAME_MOD and zlib.crc32(rtext.encode("utf-8", "replace")) % ODDNAME_MOD == 5
+    rname, lname = ODD_NAMES[zlib.crc32(rtext.encode("utf-8", "replace")) // 8 % len(ODD_NAMES)] if odd else ("rule.yaml", "listing.s")
+    rp = s.write(rname, rtext)
     if NOEOL_MOD and isinstance(listing_text, str) and listing_text.endswith("\n"):
         # the end of the file is presentation: no newline after the last line, or blank lines after it
         sel_ = zlib.crc32(listing_text.encode("utf-8", "replace")) % NOEOL_MOD
@@ -258,11 +265,11 @@ def match(doc, listing_text, mode="list", search="all", only_addr=False, macros=
         # the same listing as a tool on Windows would have saved it: line ends are presentation, the tree under test reads
         # listings with universal newlines (one listing in eight, chosen by its content, so every mode sees the same file)
         listing_text = listing_text.replace("\n", "\r\n")
-        lp = s.path("listing.s")
+        lp = s.path(lname)
         with open(lp, "w", newline="") as f:
             f.write(listing_text)
     else:
-        lp = s.write("listing.s", listing_text)
+        lp = s.write(lname, listing_text)
     return match_files(rp, lp, mode=mode, search=search, only_addr=only_addr, macros=macros, want_regex=want_regex)
 
 
